@@ -14,6 +14,11 @@ import subprocess
 
 from vlib import BIN, WORK, run_pair
 
+XL_TRUSTED = ("for the Cxx_source_* theorems only: harness/cmd/go2coq (translator of the pure integer fragment of the Go source into "
+              "coq/gen/Translated.v, regenerated on every run), go/types over the compiler's export data (types, constant values) and "
+              "coq/base/MiniGo.v's reading of Go's integer semantics (wrap-around per type, truncated division, shifts, 64-bit int); "
+              "validated on every run by driver xl: real Go function vs extracted translated definition on the same boundary and random inputs")
+
 XL_PID = "XL"        # names coq/extract/ExtractXL.v, ocaml/xl_run.ml, .work/bin/xl_model, .work/XL/<subdir>
 XL_VOS = ["base/MiniGo.vo", "gen/Translated.vo", "base/Bits64.vo", "model/Sizes.vo", "model/LowEntropy.vo", "model/Wire.vo"]
 
